@@ -10,7 +10,9 @@
  *   APIERR <err> byname-<kind>-<index>
  *   answer line (file <output-prefix>.<rank>):
  *     OK <fmt> <numrecs|0> <ndims> {name len}* <ngatts> {att}* <nvars> {name ndims dimid* natts att* type 0 begin}*
- *        | <header_size> <header_extent> <recsize> <unlimdimid> | <data of var 0 as big-endian hex> <var 1> ...
+ *        | <header_size> <header_extent> <recsize> <unlimdimid> <num_rec_vars> <num_fix_vars>
+ *        | <data of var 0 as big-endian hex> <var 1> ...            (ncmpi_get_var_<type>_all)
+ *        | <upper-half block of var 0> <var 1> ...                  (ncmpi_get_vara_all with start = len/2 in every dimension)
  *     ERR <code>
  *   att = name type nelems valuehex (big-endian external representation)
  */
@@ -165,7 +167,10 @@ int main(int argc, char **argv) {
         err = ncmpi_inq_header_size(ncid, &hsize); CHK(err);
         err = ncmpi_inq_header_extent(ncid, &hext); CHK(err);
         err = ncmpi_inq_recsize(ncid, &recsize); CHK(err);
-        fprintf(out, " | %lld %lld %lld %d |", (long long)hsize, (long long)hext, (long long)recsize, unlim);
+        { int nrecv = -1, nfixv = -1;
+          err = ncmpi_inq_num_rec_vars(ncid, &nrecv); CHK(err);
+          err = ncmpi_inq_num_fix_vars(ncid, &nfixv); CHK(err);
+          fprintf(out, " | %lld %lld %lld %d %d %d |", (long long)hsize, (long long)hext, (long long)recsize, unlim, nrecv, nfixv); }
         for (i = 0; i < nvars; i++) {
             nc_type t; int nd, dimids[1024]; MPI_Offset n = 1; void *buf;
             err = ncmpi_inq_var(ncid, i, NULL, &t, &nd, dimids, NULL); CHK(err);
@@ -173,6 +178,34 @@ int main(int argc, char **argv) {
             buf = calloc((size_t)n + 1, 8);
             err = get_var(ncid, i, t, buf);
             if (err != NC_NOERR) { free(buf); fprintf(out, " APIERR %d var %d\n", err, i); goto next; }
+            fputc(' ', out); hexbe(out, buf, (size_t)n, tsize(t));
+            free(buf);
+        }
+        fputs(" |", out);
+        for (i = 0; i < nvars; i++) {
+            /* the upper half of every dimension, through the flexible vara API (dispatcher shape cache + driver) */
+            nc_type t; int nd, dimids[1024], nd2; MPI_Offset n = 1, start[1024], count[1024]; void *buf;
+            static const MPI_Datatype mt[12] = { 0 };
+            MPI_Datatype bt;
+            err = ncmpi_inq_varndims(ncid, i, &nd2); CHK(err);
+            err = ncmpi_inq_var(ncid, i, NULL, &t, &nd, dimids, NULL); CHK(err);
+            if (nd != nd2) { fprintf(out, " APIERR 0 varndims-%d\n", i); goto next; }
+            { int ids2[1024]; err = ncmpi_inq_vardimid(ncid, i, ids2); CHK(err);
+              for (j = 0; j < nd; j++) if (ids2[j] != dimids[j]) { fprintf(out, " APIERR 0 vardimid-%d\n", i); goto next; } }
+            for (j = 0; j < nd; j++) {
+                MPI_Offset len = (dimids[j] == unlim) ? numrecs : dimlen[dimids[j]];
+                start[j] = len / 2; count[j] = len - len / 2; n *= count[j];
+            }
+            switch (t) {
+                case NC_BYTE: bt = MPI_SIGNED_CHAR; break; case NC_CHAR: bt = MPI_CHAR; break; case NC_SHORT: bt = MPI_SHORT; break;
+                case NC_INT: bt = MPI_INT; break; case NC_FLOAT: bt = MPI_FLOAT; break; case NC_DOUBLE: bt = MPI_DOUBLE; break;
+                case NC_UBYTE: bt = MPI_UNSIGNED_CHAR; break; case NC_USHORT: bt = MPI_UNSIGNED_SHORT; break; case NC_UINT: bt = MPI_UNSIGNED; break;
+                case NC_INT64: bt = MPI_LONG_LONG_INT; break; default: bt = MPI_UNSIGNED_LONG_LONG; break;
+            }
+            (void)mt;
+            buf = calloc((size_t)n + 1, 8);
+            err = ncmpi_get_vara_all(ncid, i, start, count, buf, n, bt);
+            if (err != NC_NOERR) { free(buf); fprintf(out, " APIERR %d vara-%d\n", err, i); goto next; }
             fputc(' ', out); hexbe(out, buf, (size_t)n, tsize(t));
             free(buf);
         }
